@@ -12,7 +12,8 @@ independent reference appliers of `Spec.DiffApply`.
 Recorded defects carried by the model (`known_findings.json`): **F5** — `parseSpan` returns the
 count 0 for a range written without count, so every range of exactly one line comes back empty
 from `ReadUnified` (`unified_range_F5`, `C14_F5_witness`); **F6** — `uspan` spells an empty range
-`start,0` where POSIX/GNU spell it `start-1,0` (`C14_F6_witness`).
+`start,0` where POSIX/GNU spell it `start-1,0`; it matters for an empty LEFT range, the insertion
+point (`C14_F6_witness`), not for an empty right range, where nothing is written.
 
 Reading of the round-trip clause (agreed): it is about texts with at least one hunk.  For the
 empty diff (`Left = Right`) `Unified` writes nothing and `ReadUnified("")` answers
@@ -25,7 +26,7 @@ ranges, the two witnesses, `C14_current`.  The other C14 theorems are in their o
 timestamps, under "no range of length 1"), `Props/C14g.lean` (`git_roundtrip_partial`:
 ReadGitPatch on git-style wrappers), `Props/C14a.lean` (`apply_normal_*`, `apply_context_*` — full,
 for `New` and for `New.AddContext(n).Unify()` — and `apply_unified_*_partial` under "no empty
-range").
+LEFT range").
 -/
 namespace MdsVerif.Props.C14
 open MdsVerif.Model.Edit MdsVerif.Model.Mdiff MdsVerif.Model.MdiffFmt MdsVerif.Proofs.MdiffFmt
@@ -142,14 +143,21 @@ theorem C14_F5_witness :
 
 /-- **C14_F6_witness.**  `Left = [a b c d]`, `Right = [a b X c d]`, no context: `Unified` writes
 `@@ -3,0 +3 @@`; applied to `Left` by the GNU rules (the start of an empty range is the line
-*before* it) this does not give `Right`, whereas the POSIX/GNU spelling `@@ -2,0 +3 @@` does. -/
+*before* it) this does not give `Right`, whereas the POSIX/GNU spelling `@@ -2,0 +3 @@` does, and
+so does the text itself when `start,0` is read the way it is written (`applyUnifiedWith true`).
+The same spelling on the RIGHT side is harmless: for the pure deletion `Right' = [a b d]` the text
+`@@ -3 +3,0 @@` applies by the published rules (GNU `patch` accepts it, too). -/
 theorem C14_F6_witness :
     let L : List Line := [['a'], ['b'], ['c'], ['d']]
     let R : List Line := [['a'], ['b'], ['X'], ['c'], ['d']]
     let text := unified (Model.Mdiff.new L R).chunks none
     text = [str "@@ -3,0 +3 @@", str "+X"] ∧
     DiffApply.applyUnified text L ≠ some R ∧
-    DiffApply.applyUnified [str "@@ -2,0 +3 @@", str "+X"] L = some R := by
+    DiffApply.applyUnified [str "@@ -2,0 +3 @@", str "+X"] L = some R ∧
+    DiffApply.applyUnifiedWith true text L = some R ∧
+    (let R' : List Line := [['a'], ['b'], ['d']]
+     unified (Model.Mdiff.new L R').chunks none = [str "@@ -3 +3,0 @@", str "-c"] ∧
+     DiffApply.applyUnified (unified (Model.Mdiff.new L R').chunks none) L = some R') := by
   decide
 
 /-- The empty diff: `Unified` writes nothing, and `ReadUnified` on the empty text is an error
@@ -209,7 +217,7 @@ theorem C14_current :
 
 `unified_roundtrip_full` (no "no range of length 1" hypothesis): see `Props/C14u.lean`; false by
 `C14_F5_witness`, true for a reader with `spanOmitted lo = 1`.
-`apply_unified_chunks` / `apply_unified_new` / `apply_unified_pipeline` (no "no empty range"
+`apply_unified_chunks` / `apply_unified_new` / `apply_unified_pipeline` (no "no empty LEFT range"
 hypothesis): see `Props/C14a.lean`; false by `C14_F6_witness`, true for
 `uspanFst s e = if e = s then s - 1 else s`.
 -/
